@@ -2,9 +2,11 @@
   C04 — Layout is homogeneous under uniform scaling of all lengths.
 
   `Scalable.scale k` (Model/Scale.lean) multiplies every absolute length by `k` — sizes, min/max sizes, margins, padding,
-  borders, insets, gaps, flex bases, scrollbar widths, the definite available space, the known dimensions, the parent
-  size, the results of the measure function — and leaves percentages, flex factors, aspect ratios, enums, flags, paint
-  order and child indices alone.  Every theorem below is at `Rat` and holds for EVERY `k > 0` with no other hypothesis
+  borders, insets, gaps, flex bases, scrollbar widths, the lengths of the grid track lists (`Style.grid`: fixed track
+  sizes, `fit-content(px)` arguments, `minmax` bounds), the definite available space, the known dimensions, the parent
+  size, the results of the measure function — and leaves percentages, flex factors, `fr` factors, aspect ratios, enums,
+  flags, paint order, child indices and grid placements alone.  (The tree theorem for ALL trees, grid containers
+  included: Props/C04Tree.lean.)  Every theorem below is at `Rat` and holds for EVERY `k > 0` with no other hypothesis
   (unless stated), for every style / input / child answer.
 
   Interaction programs: `scaleProg k p` scales the input of every `compute_child_layout` call and every layout handed to
